@@ -81,6 +81,29 @@ func (fr *Frame) execCall(st *State, in ssa.Instruction, cc *ssa.CallCommon) *Va
 			recv = a[0]
 			a = a[1:]
 		}
+		if callee.Parent() != nil {
+			// contracted function literal: the header's receiver only names the enclosing method;
+			// captured variables are bound by name from the closure's bindings
+			cc2 := *ct
+			cc2.Recv = nil
+			cc2.extraVars = map[string]*Val{}
+			if fv != nil {
+				for i, f := range callee.FreeVars {
+					if i < len(fv.Bindings) {
+						b := fv.Bindings[i]
+						if _, isPtr := f.Type().Underlying().(*types.Pointer); isPtr {
+							func() {
+								defer func() { recover() }()
+								cc2.extraVars[f.Name()] = c.load(st, b)
+							}()
+						} else {
+							cc2.extraVars[f.Name()] = b
+						}
+					}
+				}
+			}
+			return fr.applyContract(st, in, &cc2, sig, nil, a, callee)
+		}
 		return fr.applyContract(st, in, ct, sig, recv, a, callee)
 	}
 	// inline closures, functions marked inline, and small loop-free /repo helpers without a contract
@@ -192,6 +215,9 @@ func contractVars(ct *Contract, sig *types.Signature, recv *Val, args []*Val, re
 	}
 	for i, p := range ct.Params {
 		vars[p.Name] = args[i]
+	}
+	for k, v := range ct.extraVars {
+		vars[k] = v
 	}
 	defer func() {
 		for a, c := range ct.Aliases {
